@@ -1277,10 +1277,18 @@ _BINOPS = {"add": ast.Add, "sub": ast.Sub, "mul": ast.Mult, "truediv": ast.Div, 
 
 
 class _OperatorCalls(ast.NodeTransformer):
-    """(f if c else g)(args) -> f(args) if c else g(args);  operator.ge(a, b) -> a >= b"""
+    """(f if c else g)(args) -> f(args) if c else g(args);  operator.ge(a, b) -> a >= b;  (a, b) == (x, y) -> a == x and b == y"""
 
     def __init__(self, M, fn):
         self.M, self.fn = M, fn
+
+    def visit_Compare(self, n):
+        n = self.generic_visit(n)
+        if len(n.ops) == 1 and isinstance(n.ops[0], (ast.Eq, ast.NotEq)) and isinstance(n.left, ast.Tuple) and isinstance(n.comparators[0], ast.Tuple) and \
+                len(n.left.elts) == len(n.comparators[0].elts) >= 2 and not any(isinstance(x, ast.Starred) for x in n.left.elts + n.comparators[0].elts):
+            parts = [ast.copy_location(ast.Compare(left=a, ops=[type(n.ops[0])()], comparators=[b]), n) for a, b in zip(n.left.elts, n.comparators[0].elts)]
+            return ast.copy_location(ast.BoolOp(op=ast.And() if isinstance(n.ops[0], ast.Eq) else ast.Or(), values=parts), n)
+        return n
 
     def visit_Call(self, n):
         n = self.generic_visit(n)
@@ -1751,6 +1759,11 @@ class _MapUnbound(ast.NodeTransformer):
 
     def visit_Call(self, n):
         n = self.generic_visit(n)
+        # islice(X, k, None) over a sequence is X[k:] (the elements after the first k, in order)
+        if ast.unparse(n.func) in ("islice", "itertools.islice") and len(n.args) == 3 and not n.keywords and _is_path(n.args[0]) and \
+                isinstance(n.args[1], ast.Constant) and isinstance(n.args[1].value, int) and n.args[1].value >= 0 and \
+                isinstance(n.args[2], ast.Constant) and n.args[2].value is None:
+            return ast.copy_location(ast.Subscript(value=n.args[0], slice=ast.Slice(lower=n.args[1], upper=None, step=None), ctx=ast.Load()), n)
         if isinstance(n.func, ast.Name) and n.func.id == "map" and len(n.args) == 2 and not n.keywords and isinstance(n.args[0], ast.Attribute) and \
                 isinstance(n.args[0].value, ast.Name) and n.args[0].value.id in ("str", "bytes") and not n.args[0].attr.startswith("_"):
             _MapUnbound.n_ += 1
